@@ -55,7 +55,19 @@ pub fn run(ctx: &mut Ctx) {
         let high = match cfg.kind.as_str() { "high" => true, "low" => false, _ => rule_is_high(cfg.k, cfg.r) };
         let mut c = Case::new(&format!("encode-{}", i));
         c.with_model = !big;
-        c.push(cfg.new_line("E"));
+        // "pure function of (k, r, rate, data)": half of the encoders have a history — a round at
+        // another configuration, then reset — with the poison hook scrambling the working memory
+        if i % 2 == 1 && cfg.kind != "rs" {
+            let pre = gen_cfg(&mut ctx.rng, 64, &[cfg.kind.as_str()], &[cfg.engine.as_str()], &[64, 130, 2]);
+            c.push(pre.new_line("E"));
+            for _ in 0..pre.k { c.push(format!("E add {}", to_hex(&ctx.rng.bytes(pre.sb)))); }
+            c.push("E encode".into());
+            c.push(format!("E reset {} {} {}", cfg.k, cfg.r, cfg.sb));
+            ctx.count("history", "reused");
+        } else {
+            c.push(cfg.new_line("E"));
+            ctx.count("history", "fresh");
+        }
         for o in &originals {
             c.push(format!("E add {}", to_hex(o)));
         }
@@ -75,7 +87,9 @@ pub fn run(ctx: &mut Ctx) {
         cases.push(c);
         metas.push((cfg, originals));
     }
+    reed_solomon_simd::verif_hooks::POISON_SEED.store(ctx.seed | 0x0200_0000_0000_0001, std::sync::atomic::Ordering::Relaxed);
     let runs = ctx.run_cases(&cases);
+    reed_solomon_simd::verif_hooks::POISON_SEED.store(0, std::sync::atomic::Ordering::Relaxed);
     // closed form, spread over processes
     let chunks: Vec<Vec<String>> = queries.chunks((queries.len() + 13) / 14).map(|c| c.to_vec()).collect();
     let mp = ctx.model_path.clone();
